@@ -70,6 +70,8 @@ def run(repo, rep):
     _memo_rule(repo, rep, 'C08', 'C08.Z1')
     from ..pitfalls import log_rule as _log_rule
     _log_rule(repo, rep, 'C08', 'C08.Z2')
+    from ..api_pitfalls import truth_rule as _truth_rule
+    _truth_rule(repo, rep, 'C08', 'C08.Z4')
     from ..pitfalls import zero_rule as _zero_rule
     _zero_rule(repo, rep, 'C08', 'C08.Z3')
     dm = repo.module('dimsemessages')
